@@ -118,6 +118,38 @@ def run_tlc(module, cfg, workers=8, timeout=600, env=None, extra=(), coverage=Fa
         shutil.rmtree(meta, ignore_errors=True)
 
 
+def run_apalache(module, init, next_, inv, length, cinit=None, timeout=900, spec_dir=None):
+    """apalache-mc check on spec/<module>.tla (symbolic, bounded by `length`; used for inductive invariants:
+    --init=IndInit --inv=IndInv --length=1).  Returns (outcome, wall, tail) with outcome in
+    "NoError" / "Error" (a counter-example exists) / "Failed" (the tool itself failed or timed out)."""
+    spec_dir = spec_dir or SPEC_DIR
+    out_dir = tempfile.mkdtemp(prefix="rigverif-apa-")
+    cmd = ["apalache-mc", "check", "--init=" + init, "--next=" + next_, "--inv=" + inv, "--length=%d" % length,
+           "--out-dir=" + out_dir, "--run-dir=" + os.path.join(out_dir, "run")]
+    if cinit:
+        cmd.append("--cinit=" + cinit)
+    cmd.append(module + ".tla")
+    e = dict(os.environ)
+    e.pop("JAVA_TOOL_OPTIONS", None)
+    t0 = time.time()
+    try:
+        p = subprocess.run(cmd, cwd=spec_dir, env=e, stdout=subprocess.PIPE, stderr=subprocess.STDOUT,
+                           timeout=timeout)
+        out = p.stdout.decode("utf-8", "replace")
+        if "The outcome is: NoError" in out and p.returncode == 0:
+            outcome = "NoError"
+        elif "The outcome is: Error" in out:
+            outcome = "Error"
+        else:
+            outcome = "Failed"
+    except subprocess.TimeoutExpired as ex:
+        out = (ex.stdout or b"").decode("utf-8", "replace") + "\napalache-mc timed out after %ss" % timeout
+        outcome = "Failed"
+    finally:
+        shutil.rmtree(out_dir, ignore_errors=True)
+    return outcome, time.time() - t0, out[-1500:]
+
+
 def sany(module, spec_dir=None):
     spec_dir = spec_dir or SPEC_DIR
     p = subprocess.run(["java", "-cp", JAR_CP, "tla2sany.SANY", module + ".tla"], cwd=spec_dir,
